@@ -325,7 +325,7 @@ fn read_set(op: &Op, directed: bool) -> Option<(usize, Side)> {
     Some(match op {
         Op::OutDeg { u } | Op::IsLeaf { u } => (*u, s(Side::Out)),
         Op::InDeg { u } | Op::IsRoot { u } => (*u, s(Side::In)),
-        Op::IsOrphan { u } | Op::Snapshot { u } => (*u, Side::Both),
+        Op::IsOrphan { u } => (*u, Side::Both),
         Op::IsConnected { u, .. } | Op::FindOut { u, .. } => (*u, s(Side::Out)),
         Op::FindIn { u, .. } => (*u, s(Side::In)),
         _ => return None,
@@ -370,6 +370,39 @@ fn read_consistency(sc: &ConcSc, m0: &Model, results: &[Vec<Obs>], stats: &mut S
                 // under test when nobody else writes those)
                 if own.apply(op, obs).is_err() {
                     own_ok = false;
+                }
+                continue;
+            }
+            // a snapshot reads the two lists one after the other: each side on its own
+            if let (Op::Snapshot { u } | Op::SnapshotVia { u, .. }, Obs::Lists { out, inn }) = (op, obs) {
+                let own_isolates = script[..i].iter().any(|o| matches!(o, Op::Isolate { .. }));
+                if *u < own.n && own_ok && !own_isolates {
+                    let writes = |side: Side| sc.tasks.iter().enumerate().any(|(t2, s2)| t2 != t && s2.iter().any(|o| o.is_mutation() && may_write(o, *u, side, directed)));
+                    let mut bad = None;
+                    if directed {
+                        if !writes(Side::Out) && *out != own.out(*u) {
+                            bad = Some(format!("outgoing list {out:?}, sequential value {:?}", own.out(*u)));
+                        }
+                        if !writes(Side::In) && *inn != own.inn(*u) {
+                            bad = Some(format!("incoming list {inn:?}, sequential value {:?}", own.inn(*u)));
+                        }
+                        if !writes(Side::Out) || !writes(Side::In) {
+                            stats.inc("reads_of_quantities_no_other_task_writes_checked");
+                        }
+                    } else if !writes(Side::Both) {
+                        stats.inc("reads_of_quantities_no_other_task_writes_checked");
+                        let mut a = out.clone();
+                        a.sort();
+                        if a != own.adj(*u) {
+                            bad = Some(format!("adjacency {a:?}, sequential value {:?}", own.adj(*u)));
+                        }
+                    }
+                    if let Some(b) = bad {
+                        return Some(Violation::new(
+                            format!("read-inconsistent:{}", op.name()),
+                            format!("t{t} call #{i} {op:?}: {b}, although no call of another task can change that list"),
+                        ));
+                    }
                 }
                 continue;
             }
@@ -533,6 +566,11 @@ impl Engine for Conc {
                 if let Op::Search { spec, .. } = &mut op {
                     if !spec.valid(directed) {
                         spec.transpose = false;
+                    }
+                }
+                if let Op::Snapshot { u } = &op {
+                    if rng.coin() {
+                        op = Op::SnapshotVia { u: *u, style: rng.below(3) as u8 };
                     }
                 }
                 script.push(op);
